@@ -19,4 +19,7 @@ def untranslated : List String := []
 /-- names of the translated definitions -/
 def translated : List String := ["AddEarnedFee_taxAmount_1(coin,taxRate)", "Slash_slashedAmt_1(depositAmt,slashFraction)"]
 
+/-- every rejecting guard of the translated functions, in source order -/
+def guards : List String := ["AddEarnedFee: err := k.bankKeeper.SendCoinsFromModuleToModule(ctx, types.RequestAccName, k.feeCollectorName, taxCoins); err != nil", "AddEarnedFee: hasNeg", "Slash: hasNeg", "Slash: err := k.bankKeeper.SendCoinsFromModuleToModule(ctx, types.DepositAccName, k.feeCollectorName, slashedCoins); err != nil", "Keeper.WithdrawEarnedFees: !owner.Equals(providerOwner)", "Keeper.WithdrawEarnedFees: !found", "Keeper.WithdrawEarnedFees: !found", "Keeper.AddServiceBinding: _, found := k.GetServiceDefinition(ctx, serviceName); !found", "Keeper.AddServiceBinding: _, found := k.GetServiceBinding(ctx, serviceName, provider); found", "Keeper.AddServiceBinding: found && !owner.Equals(currentOwner)", "Keeper.AddServiceBinding: err := k.validateDeposit(ctx, deposit); err != nil", "Keeper.AddServiceBinding: qos > uint64(maxReqTimeout)", "Keeper.AddServiceBinding: err := types.ValidateOptions(options); err != nil", "Keeper.AddServiceBinding: parsedPricing, err := k.ParsePricing(ctx, pricing); err != nil", "Keeper.AddServiceBinding: minDeposit, err := k.GetMinDeposit(ctx, parsedPricing); err != nil", "Keeper.AddServiceBinding: !deposit.IsAllGTE(minDeposit)", "Keeper.AddServiceBinding: err := k.bankKeeper.SendCoinsFromAccountToModule(ctx, owner, types.DepositAccName, deposit); err != nil", "Keeper.UpdateServiceBinding: !found", "Keeper.UpdateServiceBinding: bindingOwner, err := sdk.AccAddressFromBech32(binding.Owner); err != nil", "Keeper.UpdateServiceBinding: !owner.Equals(bindingOwner)", "Keeper.UpdateServiceBinding: qos > uint64(maxReqTimeout)", "Keeper.UpdateServiceBinding: err := k.validateDeposit(ctx, deposit); err != nil", "Keeper.UpdateServiceBinding: parsedPricing, err = k.ParsePricing(ctx, pricing); err != nil", "Keeper.UpdateServiceBinding: err := types.ValidateOptions(options); err != nil", "Keeper.UpdateServiceBinding: minDeposit, err := k.GetMinDeposit(ctx, parsedPricing); err != nil", "Keeper.UpdateServiceBinding: !binding.Deposit.IsAllGTE(minDeposit)", "Keeper.UpdateServiceBinding: err := k.bankKeeper.SendCoinsFromAccountToModule(ctx, owner, types.DepositAccName, deposit); err != nil", "Keeper.DisableServiceBinding: !found", "Keeper.DisableServiceBinding: bindingOwner, err := sdk.AccAddressFromBech32(binding.Owner); err != nil", "Keeper.DisableServiceBinding: !owner.Equals(bindingOwner)", "Keeper.DisableServiceBinding: !binding.Available", "Keeper.EnableServiceBinding: !found", "Keeper.EnableServiceBinding: bindingOwner, err := sdk.AccAddressFromBech32(binding.Owner); err != nil", "Keeper.EnableServiceBinding: !owner.Equals(bindingOwner)", "Keeper.EnableServiceBinding: binding.Available", "Keeper.EnableServiceBinding: err := k.validateDeposit(ctx, deposit); err != nil", "Keeper.EnableServiceBinding: minDeposit, err := k.GetMinDeposit(ctx, k.GetPricing(ctx, serviceName, provider)); err != nil", "Keeper.EnableServiceBinding: !binding.Deposit.IsAllGTE(minDeposit)", "Keeper.EnableServiceBinding: err := k.bankKeeper.SendCoinsFromAccountToModule( ctx, owner, types.DepositAccName, deposit, ); err != nil", "Keeper.RefundDeposit: !found", "Keeper.RefundDeposit: bindingOwner, err := sdk.AccAddressFromBech32(binding.Owner); err != nil", "Keeper.RefundDeposit: !owner.Equals(bindingOwner)", "Keeper.RefundDeposit: binding.Available", "Keeper.RefundDeposit: binding.Deposit.IsZero()", "Keeper.RefundDeposit: currentTime.Before(refundableTime)", "Keeper.RefundDeposit: err := k.bankKeeper.SendCoinsFromModuleToAccount( ctx, types.DepositAccName, bindingOwner, binding.Deposit, ); err != nil", "Keeper.validateDeposit: len(deposit) != 1 || deposit[0].Denom != baseDenom"]
+
 end Irismod.Gen.PureService
